@@ -37,7 +37,7 @@ def run(ctx):
     prog = ctx.prog('default')
     ctx.rules.append('R2 guarded-cell results: integer->posit on integer cells, posit->integer on posit cells')
     tot = 0
-    wide = ('i32', 'i64', 'u32', 'u64')
+    wide = ('i32', 'i64', 'u32', 'u64', 'isize', 'usize')     # isize / usize are 64-bit on the analysed target; to_i8/i16/u8/u16 are truncating casts the property does not fix
     for pty in PTYS:
         for iname, (bits, signed) in INTS.items():
             # from_*
